@@ -54,15 +54,29 @@ Print Assumptions C14_plain_unchanged.
 
 (* the nan special case: the units text after "nan" is parsed, the magnitude is nan *)
 Theorem C14_parse_nan :
-  forall rest : string, parse_units ("nan" ++ rest) = DNanUnits (lstrip rest).
+  forall rest : string, parse_units ("nan " ++ rest) = DNanUnits (lstrip rest).
 Proof. exact @parse_nan. Qed.
 Print Assumptions C14_parse_nan.
 
 (* otherwise the whole body is parsed *)
 Theorem C14_parse_not_nan :
-  forall body : string, strip_prefix "nan" body = None -> parse_units body = DUnits body.
+  forall body : string,
+         body <> "nan" -> strip_prefix "nan " body = None -> parse_units body = DUnits body.
 Proof. exact @parse_not_nan. Qed.
 Print Assumptions C14_parse_not_nan.
+
+(* a unit whose name starts with "nan" (nanometer, nanogram / second) is parsed as an ordinary unit *)
+Theorem C14_nano_units_are_units :
+  parse_units "nanometer" = DUnits "nanometer" /\
+         parse_units "nanogram / second" = DUnits "nanogram / second".
+Proof. exact @nano_units_are_units. Qed.
+Print Assumptions C14_nano_units_are_units.
+
+(* fixed defect F19: the pinned startswith("nan") test parsed "nanometer" as nan * "ometer" *)
+Theorem C14_nano_units_refuted_pinned :
+  parse_units_pinned "nanometer" = DNanUnits "ometer".
+Proof. exact @nano_units_refuted_pinned. Qed.
+Print Assumptions C14_nano_units_refuted_pinned.
 
 
 Definition ex_v : pval :=
